@@ -1255,6 +1255,16 @@ func (in *Interp) arbitrary(t types.Type, name string, depth int) Value {
 		*cell = in.arbitrary(u.Elem(), name, depth+1)
 		return Ptr(cell)
 	case *types.Slice:
+		if b, ok := u.Elem().Underlying().(*types.Basic); ok && b.Kind() == types.Uint8 {
+			// byte strings: nil or one opaque blob of any length (no case split on the length)
+			if in.choice(2) == 0 {
+				return SliceV{}
+			}
+			in.ts.big[name] = true
+			s := in.ts.FreshSym(name, StrSort)
+			in.addPC(in.ts.ILe(in.ts.Int(0), in.ts.SLen(s)))
+			return SliceV{Blob: in.strBlob(s)}
+		}
 		n := in.choice(in.arbBound()+2) - 1 // -1 => nil
 		if n < 0 {
 			return SliceV{}
@@ -1335,7 +1345,35 @@ func registerJSON(P *Program) {
 			if data.A == nil && data.Blob == nil {
 				return in.newError(in.ts.Str("unexpected end of JSON input"))
 			}
-			key := fmt.Sprintf("arb:%d:%s", data.Blob.ID, pt.Elem().String())
+			if data.Blob == nil && len(data.A) < 2 {
+				switch pt.Elem().Underlying().(type) {
+				case *types.Struct, *types.Map, *types.Slice:
+					// no JSON text shorter than two bytes decodes into an object or array
+					return in.newError(in.ts.Str("json: cannot unmarshal (text shorter than 2 bytes)"))
+				}
+			}
+			blobID := fmt.Sprint(len(in.hooks))
+			if data.Blob != nil {
+				blobID = fmt.Sprint(data.Blob.ID)
+			} else {
+				// symbolic bytes that are not a blob (e.g. vf.Bytes): identified by their backing array
+				ak := "arbarr" // identified by content: equal symbolic bytes decode to the same value
+				for _, e := range data.A {
+					if t, ok := e.(*Term); ok {
+						ak += fmt.Sprintf(":%d", t.id)
+					} else {
+						ak += fmt.Sprintf(":%p", &data.A[0])
+						break
+					}
+				}
+				if id, ok := in.hooks[ak]; ok {
+					blobID = id.(string)
+				} else {
+					blobID = "a" + blobID
+					in.hooks[ak] = blobID
+				}
+			}
+			key := fmt.Sprintf("arb:%s:%s", blobID, pt.Elem().String())
 			if memo, ok := in.hooks[key]; ok {
 				if memo == nil {
 					return in.newError(in.ts.Str("invalid character (arbitrary bytes)"))
@@ -1347,7 +1385,7 @@ func registerJSON(P *Program) {
 				in.hooks[key] = nil
 				return in.newError(in.ts.Str("invalid character (arbitrary bytes)"))
 			}
-			val := in.arbitrary(pt.Elem(), fmt.Sprintf("arb%d", data.Blob.ID), 0)
+			val := in.arbitrary(pt.Elem(), "arb"+blobID, 0)
 			in.hooks[key] = val
 			storeVal(dst, copyVal(val))
 			return Iface{}
